@@ -154,6 +154,37 @@ fn vk_c20_defended_no_backup() {
     assert!(got == (gain - standing >= 0));
 }
 
+//@ obligation: C20.lone_king_cannot_recapture
+//@ domain: complete
+//@ functions: engine/see.rs::see
+//@ timeout: 2400
+//@ mem_gb: 8
+//@ note: fully symbolic board, every shape-valid non-en-passant capture, threshold 0: when the ONLY enemy piece bearing on the target square after the capture is the enemy king, and the capturing side still covers the square with another piece (its own king included), the king cannot recapture (it would step into an attack): the exchange ends with the capture and the verdict is 'captured value (plus promotion gain) is non-negative' -- the same as for an undefended square.  (The independent swap list agrees: a king never captures into an attacked square.)
+//@ assumes: table lookups == geometry (C07); meaning of the attack set: C01.attackers.all_exact
+#[kani::proof]
+#[kani::unwind(10)]
+//@@stubs-tables
+fn vk_c20_lone_king_cannot_recapture() {
+    let c = any_capture();
+    let board = &c.game.board;
+    let me = c.game.player;
+    let mut occ = board.occupancy();
+    occ ^= c.mv.src().bb();
+    occ |= c.mv.dst().bb();
+    let all = movegen::all_attackers_of(board, c.mv.dst(), occ) & occ;
+    let defenders = all & board.occupancy_for(me.other());
+    let their_king = board.pieces_of_kind(PieceKind::King, me.other());
+    kani::assume(defenders.any() && defenders == (defenders & their_king));
+    // our cover of the square once the capture has been made (the mover itself now stands ON the square and is not in `all`)
+    let cover = all & board.occupancy_for(me) & !c.mv.src().bb();
+    kani::assume(cover.any());
+    let got = see(&c.game, c.mv, Eval(0));
+    let gain = val(c.captured.kind) + match c.promo { Some(p) => val(p.piece()) - 100, None => 0 };
+    kani::cover!((cover & board.pieces_of_kind(PieceKind::King, me)).any());
+    kani::cover!(c.mover.kind == PieceKind::Rook);
+    assert!(got == (gain >= 0), "a lone king was allowed to recapture into an attacked square (or the capture was not scored as won)");
+}
+
 //@ obligation: C20.canary.see
 //@ canary: true
 //@ timeout: 2400
